@@ -578,7 +578,9 @@ async fn run_pause_chain(a: &Args, m: &mut mon::Mon) {
         let mut w = world::World::new(seed, 1_700_000_000, world::FeeCfg::default()).await;
         let g = w.add_group().await;
         let gk = w.groups[g].key;
-        let fa = world::clone_kp(&w.fee_admin);
+        let mut fa = world::clone_kp(&w.fee_admin);
+        // a second key the fee admin controls: the role is handed back and forth between the two
+        let mut fb = w.next_kp();
         let u = w.add_user(0).await;
         let stranger = w.user_kp(u);
         // a small market whose users feel the pause: a depositor who also owes a little
@@ -611,7 +613,20 @@ async fn run_pause_chain(a: &Args, m: &mut mon::Mon) {
             if t0.elapsed() >= a.budget {
                 break;
             }
-            match r.gen_range(0..10) {
+            match r.gen_range(0..11) {
+                10 => {
+                    // "whatever the global fee admin does": the admin role moves to the other key,
+                    // every other setting of the fee state stays as it is
+                    use vcommon::state::fee_state_of;
+                    if let Some(fs) = w.shadow.get(&ix::fee_state_key()).and_then(|a| fee_state_of(&a.data)) {
+                        let i = ix::edit_fee_state(fa.pubkey(), fb.pubkey(), fs.global_fee_wallet, fs.bank_init_flat_sol_fee, fs.liquidation_flat_sol_fee, fs.program_fee_fixed, fs.program_fee_rate, fs.liquidation_max_fee);
+                        let o = w.exec(m, &[i], &[&fa]).await;
+                        if o.ok() {
+                            std::mem::swap(&mut fa, &mut fb);
+                            m.r.count("C15.chain_admin_handovers");
+                        }
+                    }
+                }
                 0..=2 => {
                     let s = if r.gen_bool(0.9) { world::clone_kp(&fa) } else { world::clone_kp(&stranger) };
                     let _ = w.exec(m, &[ix::panic_pause(s.pubkey())], &[&s]).await;
